@@ -87,6 +87,23 @@ class DestFault(Exception):
     pass
 
 
+def dest_fault(k, text):
+    """What a wrapped destination fails with on its call number k: the classes real ones raise, by turns."""
+    import errno
+
+    kind = k % 5
+    if kind == 0:
+        return DestFault(text)
+    if kind == 1:
+        return UnprintableDestFault(text)
+    if kind == 2:
+        # a file shared with a process that made it non-blocking: part of the line went out
+        return BlockingIOError(errno.EAGAIN, "write could not complete without blocking", 7)
+    if kind == 3:
+        return OSError(errno.ENOSPC, "No space left on device")
+    return ValueError("I/O operation on closed file.")
+
+
 class UnprintableDestFault(DestFault):
     def __str__(self):
         raise RuntimeError("str() of this exception raises")
@@ -106,6 +123,12 @@ class _GatedThreading(object):
             def run(self):
                 outer.gate.wait(10)
                 threading.Thread.run(self)
+
+            def join(self, timeout=None):
+                if timeout is not None:
+                    # the case decides how slow the wrapped destination is (the gate): slower than any bounded wait
+                    timeout = min(timeout, 0.005)
+                return threading.Thread.join(self, timeout)
 
         self.Thread = Thread
 
@@ -136,7 +159,7 @@ class GatedDest(object):
             self.received.append((msg, threading.get_ident()))
             self.cond.notify_all()
         if k in self.mask:
-            raise (UnprintableDestFault if k % 2 else DestFault)("wrapped destination fails on call %d" % k)
+            raise dest_fault(k, "wrapped destination fails on call %d" % k)
 
     closed_forever = False
 
@@ -395,7 +418,7 @@ def check_interleaved(case):
         calls[0] += 1
         received.append((msg, threading.get_ident()))
         if k in mask:
-            raise (UnprintableDestFault if k % 2 else DestFault)("fails on call %d" % k)
+            raise dest_fault(k, "fails on call %d" % k)
 
     clock = [0]
 
